@@ -127,3 +127,10 @@ def ground_expr(e, env=None):
     if names:
         f = z3.substitute(f, *[(decls[n], z3.StringVal(env[n])) for n in names])
     return f
+
+
+def ground_expr_open(e):
+    """the Z3 expression with its variables left free (declared as strings)"""
+    names = tuple(variables(e))
+    decls = {n: z3.String(n) for n in names}
+    return z3.parse_smt2_string(f"(assert {to_smtlib(e)})", decls=decls)[0]
